@@ -5,6 +5,7 @@ CONSTANTS Pipes = {1, 2}
           MaxNow = 150
           Ticks = {11, 35}
           Resend = 30
+          Resend2 = 30
           Tick = 10
           AllowRetune = FALSE
           FreeByClone = TRUE
